@@ -25,6 +25,23 @@ import vloop
 from taskiq import AckableMessage, AsyncBroker, Context, TaskiqDepends, async_shared_broker  # noqa: F401
 from taskiq.brokers.inmemory_broker import InMemoryBroker, InmemoryResultBackend
 from taskiq.compat import parse_obj_as
+
+# The conversions parse_params asks for are observed through ONE trampoline put in by identity wherever taskiq.receiver
+# reaches taskiq.compat.parse_obj_as (the function under any name, or the compat module under any name); a call installs its
+# logger in _PARSE_HOOK for its own duration.
+_PARSE_HOOK = [None]
+
+
+def _parse_tramp(*a, **k):
+    h = _PARSE_HOOK[0]
+    return h(*a, **k) if h is not None else parse_obj_as(*a, **k)
+
+
+def _install_parse_tramp():
+    import patchall
+    import taskiq.compat as _compat
+    patchall.patch_attr(_compat, "parse_obj_as", _parse_tramp, prefix="taskiq.receiver")
+
 from taskiq.formatters.json_formatter import JSONFormatter
 from taskiq.message import BrokerMessage
 from taskiq.receiver import Receiver, params_parser
@@ -516,7 +533,7 @@ async def call(case, out, fn, CAP, broker, task, get_receiver, registry=None, wo
         data = bytes(bytearray(data))                  # equal bytes, another object
         if data is bm.message:
             raise RuntimeError("no distinct copy of the wire bytes")
-    params_parser.parse_obj_as = logging_parse_obj_as
+    _PARSE_HOOK[0] = logging_parse_obj_as
     try:
         if deliver is not None:
             await deliver(bm if data is bm.message else BrokerMessage(task_id=bm.task_id, task_name=bm.task_name, message=data,
@@ -530,7 +547,7 @@ async def call(case, out, fn, CAP, broker, task, get_receiver, registry=None, wo
     except BaseException as e:  # noqa: BLE001
         exc = e
     finally:
-        params_parser.parse_obj_as = parse_obj_as
+        _PARSE_HOOK[0] = None
     # the statement's last sentence holds of EVERY decode: the same bytes decoded once more, after the task function has
     # done whatever it does to the values it was given, still yield a message equal to the encoded one
     again = broker.formatter.loads(bm.message)
@@ -896,7 +913,13 @@ async def redelivery_trip(case):
             await broker.shutdown()
 
 
+_TRAMP_DONE = [False]
+
+
 def run_case(case, opts):
+    if not _TRAMP_DONE[0]:
+        _install_parse_tramp()
+        _TRAMP_DONE[0] = True
     async def main(loop):
         if "redelivery" in case:
             return await redelivery_trip(case)
